@@ -114,11 +114,11 @@ Qed.
 Lemma gpreds_in H W offs p q : In q (gpreds H W offs p) -> inD H W q = true.
 Proof. unfold gpreds. intros Hq. apply filter_In in Hq. tauto. Qed.
 
-Theorem recon_check_sound seed mask fp R lvl :
-  recon_check seed mask fp R lvl = true -> GridRecon seed mask fp R.
+Theorem recon_check_offs_sound seed mask offs R lvl :
+  recon_check_offs seed mask offs R lvl = true -> GridReconOffs seed mask offs R.
 Proof.
-  unfold recon_check, GridRecon. set (H := zlen seed). set (W := width seed).
-  set (offs := fp_offsets fp). intros HC.
+  unfold recon_check_offs, GridReconOffs. set (H := zlen seed). set (W := width seed).
+  intros HC.
   repeat (apply andb_prop in HC; destruct HC as [HC ?]).
   match goal with HF : forallb _ _ = true |- _ => rename HF into Hall end.
   rewrite forallb_forall in Hall.
@@ -138,12 +138,16 @@ Proof.
     + right. apply existsb_exists in P. destruct P as [q [Hq P]]. exists q. split; [exact Hq|]. lia.
 Qed.
 
+Theorem recon_check_sound seed mask fp R lvl :
+  recon_check seed mask fp R lvl = true -> GridRecon seed mask fp R.
+Proof. apply recon_check_offs_sound. Qed.
+
 (* shape facts the checker also establishes *)
-Lemma recon_check_shape seed mask fp R lvl :
-  recon_check seed mask fp R lvl = true ->
+Lemma recon_check_shape seed mask offs R lvl :
+  recon_check_offs seed mask offs R lvl = true ->
   zlen R = zlen seed /\ rect R (width seed) = true /\ 1 <= zlen seed /\ 1 <= width seed.
 Proof.
-  unfold recon_check, shape_ok. intros HC.
+  unfold recon_check_offs, shape_ok. intros HC.
   repeat (apply andb_prop in HC; destruct HC as [HC ?]). repeat split; try lia; assumption.
 Qed.
 
@@ -217,10 +221,10 @@ Proof.
                (gval R0) R' HP); [intros p' Dp'; apply HL; assumption|exact Dp].
 Qed.
 
-Theorem recon_iter_sound fuel seed mask fp R :
-  recon_iter fuel seed mask fp = Some R -> GridRecon seed mask fp R.
+Theorem recon_iter_offs_sound fuel seed mask offs R :
+  recon_iter_offs fuel seed mask offs = Some R -> GridReconOffs seed mask offs R.
 Proof.
-  unfold recon_iter, GridRecon. set (H := zlen seed). set (W := width seed).
+  unfold recon_iter_offs, GridReconOffs. set (H := zlen seed). set (W := width seed).
   destruct (shape_ok H W seed && shape_ok H W mask &&
             forallb (fun p => gval seed p <=? gval mask p) (dom H W)) eqn:E; [|discriminate].
   apply andb_prop in E. destruct E as [_ E]. rewrite forallb_forall in E.
@@ -230,6 +234,10 @@ Proof.
   - intros p Dp. rewrite gval_tab by exact Dp. specialize (Hsm p Dp). lia.
   - intros R' [Hs _] p Dp. rewrite gval_tab by exact Dp. apply Hs; exact Dp.
 Qed.
+
+Theorem recon_iter_sound fuel seed mask fp R :
+  recon_iter fuel seed mask fp = Some R -> GridRecon seed mask fp R.
+Proof. apply recon_iter_offs_sound. Qed.
 
 (* ------------------------------------------------------------------ the hypotheses are satisfiable *)
 Definition ex_seed := [[0; 0; 5]; [0; 0; 0]].
@@ -260,17 +268,24 @@ Qed.
 
 (* any output accepted by the checker is its own reconstruction under the same mask, and every
    reconstruction of it equals it: "applying it again to its own output changes nothing" *)
+Theorem recon_check_offs_idempotent seed mask offs R lvl :
+  recon_check_offs seed mask offs R lvl = true ->
+  GridReconOffs R mask offs R /\
+  forall R2, GridReconOffs R mask offs R2 ->
+    forall p, inD (zlen seed) (width seed) p = true -> gval R2 p = gval R p.
+Proof.
+  intros HC. assert (HS := recon_check_shape _ _ _ _ _ HC). destruct HS as (EL & ER & H1 & W1).
+  assert (EW : width R = width seed) by (apply rect_width; [lia|exact ER]).
+  assert (G := recon_check_offs_sound _ _ _ _ _ HC). unfold GridReconOffs in *. rewrite EL, EW.
+  assert (I := recon_idempotent _ _ _ _ _ _ G). split; [exact I|].
+  intros R2 G2 p Dp.
+  apply (recon_unique pt (fun p => inD (zlen seed) (width seed) p = true)
+           (gpreds (zlen seed) (width seed) offs) (gval R) (gval mask) (gval R2) (gval R) G2 I p Dp).
+Qed.
+
 Theorem recon_check_idempotent seed mask fp R lvl :
   recon_check seed mask fp R lvl = true ->
   GridRecon R mask fp R /\
   forall R2, GridRecon R mask fp R2 ->
     forall p, inD (zlen seed) (width seed) p = true -> gval R2 p = gval R p.
-Proof.
-  intros HC. assert (HS := recon_check_shape _ _ _ _ _ HC). destruct HS as (EL & ER & H1 & W1).
-  assert (EW : width R = width seed) by (apply rect_width; [lia|exact ER]).
-  assert (G := recon_check_sound _ _ _ _ _ HC). unfold GridRecon in *. rewrite EL, EW.
-  assert (I := recon_idempotent _ _ _ _ _ _ G). split; [exact I|].
-  intros R2 G2 p Dp.
-  apply (recon_unique pt (fun p => inD (zlen seed) (width seed) p = true)
-           (gpreds (zlen seed) (width seed) (fp_offsets fp)) (gval R) (gval mask) (gval R2) (gval R) G2 I p Dp).
-Qed.
+Proof. apply recon_check_offs_idempotent. Qed.
